@@ -8,7 +8,7 @@
              C23/ProofsPhi.v    run_ba (block arguments) and run_phi (phi nodes, LLVM's multi-entry rule)
    `None` = poison / undefined behaviour; all widths w >= 1, all bit patterns. *)
 From Coq Require Import ZArith List String Bool.
-From XV Require Import C15.Spec Gen.C23_tables C23.Model C23.Sem C23.ProofsBits C23.ProofsTables C23.ProofsPhi C23.Whole C23.ProofsWhole.
+From XV Require Import C15.Spec Gen.C23_tables C23.Model C23.Sem C23.ProofsBits C23.ProofsTables C23.ProofsPhi C23.Whole C23.ProofsWhole C23.ProofsLit.
 Import ListNotations.
 Local Open Scope Z_scope.
 
@@ -204,6 +204,22 @@ Theorem C23_conv_func_validated : forall f bs T, conv_func f = Ok bs -> tr_prog 
     run_src f fuel 0 e0 <> WStuck -> run_lit bs fuel 0 e0 = run_src f fuel 0 e0.
 Proof. exact conv_func_validated. Qed.
 Print Assumptions C23_conv_func_validated.
+(* ... and for EVERY function of the fragment, the repaired same-successor cond_br included: the validator lit_okb
+   also accepts bodies followed by materialised `select` instructions with fresh negative ids whose results are the
+   phi entries standing for the kernel's `KSel c a b` (LitOK in C23/ProofsLit.v; lit_okb reflects it).  run_lit
+   executes those selects as ordinary instructions.  (Here `select` reads its condition and only the chosen operand.) *)
+Theorem C23_conv_func_validated_all : forall f bs T, conv_func f = Ok bs -> tr_prog f = Ok T ->
+  lit_okb bs T = true -> whole_okb f = true ->
+  forall fuel inputs,
+    let e0 := combine (map fst (d_args (nth 0 f ddflt))) inputs in
+    run_src f fuel 0 e0 <> WStuck -> run_lit bs fuel 0 e0 = run_src f fuel 0 e0.
+Proof. exact conv_func_validated_all. Qed.
+Print Assumptions C23_conv_func_validated_all.
+Theorem C23_lit_sel_sim : forall bs T S, LitOK bs T S -> wf (t_k T) ->
+  forall fuel cur el ea, Agree el ea -> run_tgt T fuel cur ea <> WStuck ->
+  run_lit bs fuel cur el = run_tgt T fuel cur ea.
+Proof. exact lit_sel_sim. Qed.
+Print Assumptions C23_lit_sel_sim.
 Theorem C23_lit_sim : forall bs T, lit_matches bs T -> wf (t_k T) ->
   forall fuel cur e, run_lit bs fuel cur e = run_tgt T fuel cur e.
 Proof. exact lit_sim. Qed.
@@ -242,3 +258,10 @@ Example C23_ex_phi_multi_edge_fixed :
     c_run_phi multi_edge pt 3 0 [(10, 5); (11, 7); (12, 1)] = ORet 5 /\
     c_run_phi multi_edge pt 3 0 [(10, 5); (11, 7); (12, 0)] = ORet 7.
 Proof. exact phi_multi_edge_fixed. Qed.
+Example C23_ex_validator_accepts_selects :
+  match conv_func ex_func, tr_prog ex_func with
+  | Ok bs, Ok T => lit_okb bs T = true /\ lit_matchesb bs T = false /\ S_of bs T 0 = [(-1, 8, IVar 3, IVar 1, IVar 2)] /\
+                   run_lit bs 10 0 (ex_env [5; 200; 0]) = WRet 201 /\ run_lit bs 10 0 (ex_env [127; 3; 1]) = WPoison
+  | _, _ => False
+  end.
+Proof. vm_compute. repeat split; reflexivity. Qed.
